@@ -121,3 +121,18 @@ def set_key(st, o, env, mode):
         st.ptrfact[pd.k] = 'nonnull'
         kt = Term(('mem', ko, 'kty'))
         st.dom[kt.k] = tuple(sorted(env.kty.values()))
+
+
+VERIFY_PRIMS = ('EVP_DigestVerify', 'gnutls_pubkey_verify_data2')
+SIGN_PRIMS = ('EVP_DigestSign', 'gnutls_privkey_sign_data')
+HMAC_PRIMS = ('HMAC', 'gnutls_hmac_fast')
+
+
+def require_reached(names, what):
+    """non-vacuity of whole-path runs: the crypto primitives of both providers were reached by the interpreter in this run
+    (a harness that makes every path die before them would let the path rules pass vacuously)"""
+    from front import AnalysisBroken
+    missing = [n for n in names if n not in Interp.ALL_MODEL]
+    if missing:
+        raise AnalysisBroken('%s: the interpreter never reached %s (harness or anchor broken: the path rules would pass vacuously)'
+                             % (what, ', '.join(missing)))
